@@ -213,7 +213,13 @@ where
     let mut service_clone = service;
     let req_clone = req.clone();
     let tx_clone = tx.clone();
+    // Attempts report the moment they start: the delay before the next attempt counts from the
+    // start of the previous one, which may be later than its spawn (the task has to be scheduled,
+    // a hedge's clone has to become ready first).
+    let (started_tx, mut started_rx) = mpsc::unbounded_channel::<usize>();
+    let primary_started = started_tx.clone();
     tokio::spawn(async move {
+        let _ = primary_started.send(0);
         let result = service_clone.call(req_clone).await;
         let _ = tx_clone.send((0, result)).await;
     });
@@ -237,11 +243,8 @@ where
             {
                 // Latency mode: wait for delay or result
                 let mut delay_fut = std::pin::pin!(tokio::time::sleep(delay));
-                // The delay before hedge k+1 counts from the start of hedge k, which may be later
-                // than its spawn (the clone has to become ready first): hedges report their start
-                // here, and only then is the next delay armed.
-                let (started_tx, mut started_rx) = mpsc::unbounded_channel::<usize>();
-                let mut delay_armed = true;
+                // Armed when the previous attempt (the primary first) reports its start
+                let mut delay_armed = false;
 
                 loop {
                     tokio::select! {
